@@ -18,6 +18,8 @@ def main():
     d = tempfile.mkdtemp(prefix="vftry_")
     try:
         shutil.copytree("/repo/psutil", os.path.join(d, "psutil"))
+        os.makedirs(os.path.join(d, "docs"), exist_ok=True)
+        shutil.copy("/repo/docs/index.rst", os.path.join(d, "docs"))
         for f in ("setup.py", "pyproject.toml"):
             if os.path.exists("/repo/" + f):
                 shutil.copy("/repo/" + f, d)
